@@ -306,6 +306,12 @@ func verifC29Run(n, npos, tsym, reqMemb, symPresent int, fixedMemb []int, fixedC
 		zzverif.Assume(v >= 0 && v <= 255)
 		pos[i] = v
 	}
+	verifC29Exec(base, requester, book, conn, known, allow, limit, target, pos)
+}
+
+// verifC29Exec answers one request with the real handler and asserts the
+// clauses of the statement on the reply. book.entries[0] is the requester.
+func verifC29Exec(base, requester boson.Address, book *verifC29Book, conn, known []boson.Address, allow bool, limit int32, target []byte, pos []int32) {
 	req := &pb.FindNodeReq{Target: target, Pos: pos, Limit: limit}
 
 	s := &Service{
@@ -367,4 +373,48 @@ func verifC29Run(n, npos, tsym, reqMemb, symPresent int, fixedMemb []int, fixedC
 	}
 	zzverif.Observe("replyCount", len(peers))
 	zzverif.Reach("C29")
+}
+
+// VerifC29_FindNodeMany: the count clause for limits ABOVE the maximum of 30
+// can only be observed on a node that has more than 30 suitable peers. Here
+// the node has `per` connected and `per` known peers (20 + 20: each list can
+// fill its share of every limit up to 40), all recorded in the address book
+// with underlay class "neither"; connected peers have proximity 1 to the
+// (zero) target, known peers proximity 2. The limit takes every value 0..40
+// and the requested orders are {1,2}, {1,1} or {2,2} (concrete forks), so
+// that both lists, only the connected or only the known peers are suitable; the requester is recorded with a public underlay and
+// is in no list, AllowPrivateCIDRs is false. Everything else about a request
+// is varied by VerifC29_FindNode over small universes. All clauses of the
+// statement are asserted on the reply as there.
+func VerifC29_FindNodeMany() {
+	verifC29CheckManetModel()
+	zzverif.Unwind(64)
+	per := zzverif.Param("manyPerList", 20, 20)
+
+	base := verifC29Addr(0x00, 0x00)
+	requester := verifC29Addr(0x80, 0x01)
+	book := &verifC29Book{req: requester}
+	book.entries = append(book.entries, verifC29Entry{overlay: requester, present: true, class: 0, idx: 1})
+	var conn, known []boson.Address
+	for i := 0; i < 2*per; i++ {
+		first := byte(0x40) // proximity 1 to base and target
+		if i >= per {
+			first = 0x20 // proximity 2
+		}
+		a := verifC29Addr(first, byte(i+1))
+		if i < per {
+			conn = append(conn, a)
+		} else {
+			known = append(known, a)
+		}
+		book.entries = append(book.entries, verifC29Entry{overlay: a, present: true, class: 2, idx: uint8(i + 2)})
+	}
+
+	// every limit 0..40 as a concrete fork: a symbolic limit makes the lengths
+	// of both halves of the reply symbolic terms, which costs some hundred
+	// solver queries per path with 40 peers; enumerating is exhaustive too
+	limit := int32(zzverif.Choose("limit", 41))
+	target := make([]byte, 32)
+	pos := [][]int32{{1, 2}, {1, 1}, {2, 2}}[zzverif.Choose("orders", 3)]
+	verifC29Exec(base, requester, book, conn, known, false, limit, target, pos)
 }
